@@ -209,3 +209,15 @@ package reg
 //@   in ~/scheme/reg
 //@   infunc \)\.ManifestDelete$
 //@   requires for-the-manifest-being-deleted: r == old(caller.r) && m == caller.mc.Manifest
+
+// ---- C04: what the client remembers about the target is what the target acknowledged ----
+// imageCopyOpt decides "already at the target, skip" from ManifestHead of the target, which answers
+// digest references from the manifest cache. ManifestPut therefore records a manifest in that cache
+// only after the registry accepted the PUT (request sent without error, status 201); a failed or
+// cancelled push must leave no trace that makes a retry skip the child and push the parent.
+//@ callsite (*~/internal/cache.Cache[k, v]).Set(key, val)
+//@   prop C04
+//@   name cacheMan.Set/ManifestPut
+//@   in ~/scheme/reg
+//@   infunc \)\.ManifestPut$
+//@   requires only-what-the-registry-acknowledged: $ret(Do, 1) == nil && $ret(HTTPResponse, 0).StatusCode == 201
